@@ -5,7 +5,7 @@ import (
 	"fmt"
 )
 
-const c18Rule = "the same documents and assignments given to the k-groups, compact and roaring index (all fields configured with the same parser: common, number or string-hash), values drawn from the C09 representation zoo (all integer widths, numeric strings, json.Number, floats incl. fractional and negative, unicode strings, typed slices, heterogeneous lists, also shapes with no written specification such as lists mixing numbers and words), include/exclude, repeated fields, empty conjunctions; the three answers are compared pairwise and each index with its model. Non-trivial = all three accept and some query returns a non-empty proper subset; distinct = distinct input"
+const c18Rule = "(a fifth more cases with a PATTERN field in all three indexes: list assignments, keywords spanning the join) the same documents and assignments given to the k-groups, compact and roaring index (all fields configured with the same parser: common, number or string-hash), values drawn from the C09 representation zoo (all integer widths, numeric strings, json.Number, floats incl. fractional and negative, unicode strings, typed slices, heterogeneous lists, also shapes with no written specification such as lists mixing numbers and words), include/exclude, repeated fields, empty conjunctions; the three answers are compared pairwise and each index with its model. Non-trivial = all three accept and some query returns a non-empty proper subset; distinct = distinct input"
 
 type triIn struct {
 	Tri     bool     `json:"tri"`
@@ -15,6 +15,7 @@ type triIn struct {
 	Qs      []eQuery `json:"qs"`
 	Batch   int      `json:"batch,omitempty"`
 	Rebuild int      `json:"rebuild,omitempty"`
+	Ac      bool     `json:"ac,omitempty"` // field 1 is a pattern field in all three indexes (documents from acDocsQueries)
 }
 
 func zooValue(r *Rand, parser string) TV {
@@ -68,6 +69,11 @@ func init() {
 			n := 60
 			if tier == "thorough" {
 				n = 4000
+			}
+			// pattern fields: the three implementations must join lists, match keywords and combine with ordinary fields alike
+			for i := 0; i < n/5; i++ {
+				docs, qs := acDocsQueries(r, i%3 == 0)
+				add(triIn{Tri: true, NF: 2, Ac: true, Docs: docs, Qs: qs})
 			}
 			for i := 0; i < n; i++ {
 				p := []string{"", "number", "strhash"}[i%3]
@@ -125,10 +131,15 @@ func init() {
 				}
 				fields = append(fields, rField{F: f, Cont: "default", Parser: t.Parser})
 			}
+			var configs map[int]string
+			if t.Ac {
+				configs = map[int]string{1: "ac_matcher"}
+				fields[1] = rField{F: 1, Cont: "ac_matcher"}
+			}
 			// the unknown query field must use the same parser on the posting-list side when it happens
 			// to be created by a document: it never is (documents use fields < NF)
 			mk := func(kind string) (execResult, error) {
-				c := eCase{Kind: kind, Policy: "error", Parsers: parsers, Docs: t.Docs, Queries: t.Qs, Batch: t.Batch, Rebuild: t.Rebuild}
+				c := eCase{Kind: kind, Policy: "error", Parsers: parsers, Configs: configs, Docs: t.Docs, Queries: t.Qs, Batch: t.Batch, Rebuild: t.Rebuild}
 				b, _ := json.Marshal(c)
 				return execE2E(b)
 			}
